@@ -153,6 +153,103 @@ def templates_in(node):
     return out
 
 
+def writer_helpers(src, file, fnitem, depth=3):
+    """same-file helper fns (free or inherent, not trait methods) that `fnitem` calls and that receive a formatter/writer
+    (`write_separator(f, &mut first)`, `Self::write_item(f, ..)`, `self.write_tail(f)`), transitively: a printer extracted into
+    private helpers still writes the same text.  Returned in call order, each once."""
+    out = []
+    seen = {id(fnitem)}
+
+    def takes_writer(it):
+        return any(re.search(r"Formatter|fmt::Write|implWrite|W\b", i.get("ty") or "") for i in it.get("sig", {}).get("inputs", []) if isinstance(i, dict))
+
+    def rec(it, d):
+        if d > depth:
+            return
+        names = []
+        for n in find_all(it, lambda n: n.get("k") in ("call", "mcall")):
+            if n["k"] == "call" and n["f"].get("k") == "path":
+                names.append(n["f"]["p"].split("::")[-1])
+            elif n["k"] == "mcall":
+                names.append(n["m"])
+        for nm in names:
+            for (f, s, tr, it2, t) in src.fns:
+                if f == file and not t and tr is None and it2["name"] == nm and id(it2) not in seen and takes_writer(it2):
+                    seen.add(id(it2))
+                    out.append(it2)
+                    rec(it2, d + 1)
+    rec(fnitem, 0)
+    return out
+
+
+def templates_deep(src, file, fnitem):
+    """templates_in(fn body) followed by the templates of the writer helpers it calls"""
+    out = list(templates_in(fnitem["body"]))
+    for h in writer_helpers(src, file, fnitem):
+        out.extend(templates_in(h["body"]))
+    return out
+
+
+KEY_ITER_STEPS = {"keys", "iter", "enumerate", "as_ref", "as_slice", "into_iter", "peekable", "by_ref", "copied", "cloned", "deref"}
+KEY_ITER_SINKS = {"for_each", "try_for_each"}
+
+
+def chord_display_model(src, file, fnitem):
+    """What KeyChord's Display writes, independent of how the loop is spelled: every writer template of the body (and of the writer
+    helpers it calls) must be either a literal or a single `{}`/`{:?}` hole of a variable bound to an element of an iteration over
+    self's keys.  Element bindings: `for pat in CHAIN`, `CHAIN.for_each/try_for_each(|pat| ..)`, `if let/while let Some(pat) = CHAIN.next()`,
+    where CHAIN is rooted at `self` / `self.keys` possibly through `let` aliases (`let keys = self.keys(); let mut it = keys.iter();`).
+    Returns {"seps": [literal texts], "key_templates": n, "steps": [all iterator methods used], "loops": n element-binding loops}."""
+    lets = {}
+    for n in find_all(fnitem, lambda n: n.get("k") == "let" and n.get("pat", {}).get("k") == "ident" and n.get("init")):
+        lets.setdefault(n["pat"]["name"], []).append(n["init"])
+
+    def keys_chain(e, depth=0):
+        r, ms = chain(e)
+        if is_path(r, "self") or expr_text(r) == "self.keys":
+            return ms
+        if is_path(r) and len(lets.get(r["p"], ())) == 1 and depth < 6:
+            base = keys_chain(lets[r["p"]][0], depth + 1)
+            return None if base is None else base + ms
+        return None
+
+    def idents(p):
+        return {x["name"] for x in find_all(p, lambda n: n.get("k") == "ident")}
+
+    kvars, steps, loops = set(), [], 0
+    for n in find_all(fnitem, lambda n: n.get("k") == "for"):
+        ms = keys_chain(n["iter"])
+        if ms is None:
+            raise NotUnderstood("KeyChord Display loops over something that is not self's keys: %s" % expr_text(n["iter"]))
+        kvars |= idents(n["pat"])
+        steps += ms
+        loops += 1
+    for n in find_all(fnitem, lambda n: n.get("k") == "mcall" and n["m"] in KEY_ITER_SINKS and n["args"] and n["args"][0].get("k") == "closure"):
+        ms = keys_chain(n["recv"])
+        if ms is None:
+            continue
+        for prm in n["args"][0]["params"]:
+            kvars |= idents(prm)
+        steps += ms
+        loops += 1
+    for n in find_all(fnitem, lambda n: n.get("k") == "letcond" and n["pat"].get("k") == "tstruct" and n["pat"]["path"] == "Some"):
+        ms = keys_chain(n["e"])
+        if ms is None or not ms or ms[-1] != "next":
+            continue
+        kvars |= idents(n["pat"])
+        steps += ms[:-1]
+        loops += 1 if any(w.get("cond") is n for w in find_all(fnitem, lambda x: x.get("k") == "while")) else 0
+    seps, key_t = [], 0
+    for node, tpl in templates_deep(src, file, fnitem):
+        if all(x[0] == "lit" for x in tpl):
+            seps.append("".join(x[1] for x in tpl))
+        elif len(tpl) == 1 and tpl[0][0] == "hole" and is_path(unref(tpl[0][1])) and unref(tpl[0][1])["p"] in kvars and tpl[0][2] in ("", "?"):
+            key_t += 1
+        else:
+            raise NotUnderstood("KeyChord Display template %s" % (tpl,))
+    return {"seps": seps, "key_templates": key_t, "steps": steps, "loops": loops}
+
+
 def path_template(node, value_of):
     """Concatenated writer templates executed along one path of `node`: `value_of(cond)` gives the truth value a condition has on that
     path (None: not a condition the caller knows).  Understands if/else in either polarity, `if .. { return write!(..) }` followed by
@@ -1036,29 +1133,15 @@ def run(ctx):
         sep_instance("key-separator", key_sep, key_split, "Key::Debug", key_dbg["line"])
     if mod_sep is not None and key_split is not None:
         sep_instance("modifier-separator", mod_sep, key_split, "KeyMod::Debug", mod_dbg["line"])
-    chord_sep = chord_split = None
+    chord_sep = chord_split = chord_model = None
     if ch_disp is None or ch_from is None:
         ctx.anchor("SEPARATORS", "KeyChord-Display/from_str")
     else:
         try:
-            fors = find_all(ch_disp, lambda n: n.get("k") == "for")
-            if len(fors) != 1:
-                raise NotUnderstood("expected one for loop in KeyChord Display")
-            kp = fors[0]["pat"]
-            kvars = {p["name"] for p in find_all(kp, lambda n: n.get("k") == "ident")}
-            lit_t = []
-            key_t = 0
-            for node, tpl in templates_in(fors[0]["body"]):
-                if all(x[0] == "lit" for x in tpl):
-                    lit_t.append("".join(x[1] for x in tpl))
-                elif len(tpl) == 1 and tpl[0][0] == "hole" and is_path(unref(tpl[0][1])) and unref(tpl[0][1])["p"] in kvars and tpl[0][2] in ("", "?"):
-                    key_t += 1
-                else:
-                    raise NotUnderstood("KeyChord Display template %s" % (tpl,))
-            outside = [t for n, t in templates_in(ch_disp["body"]) if n["line"] < fors[0]["line"] or n["line"] > max(x["line"] for x in find_all(fors[0], lambda n: "line" in n))]
-            if key_t != 1 or len(lit_t) != 1 or outside:
-                raise NotUnderstood("KeyChord Display: expected one key template and one separator literal inside the loop")
-            chord_sep = lit_t[0]
+            chord_model = chord_display_model(src, KEYS, ch_disp)
+            if chord_model["key_templates"] < 1 or chord_model["loops"] < 1 or len(set(chord_model["seps"])) != 1:
+                raise NotUnderstood("KeyChord Display: expected key writes inside an iteration over self's keys and one separator literal; got %s" % (chord_model,))
+            chord_sep = chord_model["seps"][0]
             sp = find_all(ch_from, lambda n: n.get("k") == "mcall" and n["m"] == "split")
             param = ch_from["sig"]["inputs"][0]["name"]
             if len(sp) != 1 or not is_path(sp[0]["recv"], param) or sp[0]["args"][0].get("t") not in ("char", "str"):
@@ -1148,11 +1231,8 @@ def run(ctx):
             ctx.violation("SERDE-CHAIN", "KeyChord::deserialize", "from_str", "KeyChord::deserialize does not parse a string with KeyChord::from_str", sites=[de.loc])
     # Display(KeyChord) prints every key of self, in order, through Key's Display/Debug (template checked in SEPARATORS)
     if ch_disp is not None:
-        fors = find_all(ch_disp, lambda n: n.get("k") == "for")
-        ok = False
-        if len(fors) == 1:
-            r0, ms0 = chain(fors[0]["iter"])
-            ok = (is_path(r0, "self") or expr_text(r0) == "self.keys") and set(ms0) <= {"keys", "iter", "enumerate", "as_ref", "as_slice"} and chord_sep is not None
+        # every iterator step between self's keys and the written element keeps all elements in order (no rev/skip/filter/take/step_by)
+        ok = chord_sep is not None and chord_model is not None and set(chord_model["steps"]) <= KEY_ITER_STEPS
         ctx.instance("SERDE-CHAIN", {"link": "KeyChord::Display iterates all keys of self in order", "ok": ok})
         if not ok:
             ctx.violation("SERDE-CHAIN", "KeyChord::Display", "iteration", "KeyChord Display does not print self.keys() in order (skip/rev/filter in the iterator chain?)", sites=["%s:%d" % (KEYS, ch_disp["line"])])
